@@ -237,7 +237,7 @@ class CheckRaises(FuncRule):
         declared: list[str | type[BaseException]],
         stubs: StubsManager | None = None,
     ) -> Iterator[Error]:
-        declared_types = tuple(exc for exc in declared if not isinstance(exc, str))
+        declared_types = tuple(exc for exc in declared if isinstance(exc, type))
         for token in get_exceptions(body=func.body, stubs=stubs):
             if token.value in declared:
                 continue
